@@ -9,7 +9,11 @@ Search oracle: independent RFC 4253 derivation over hashlib vs _compute_key; ins
 oracle; client-out == server-in and in != out on the real code; real loopback handshakes (every kex incl.
 group exchange with a stub modulus pack, every AEAD cipher) with traffic, a re-key and more traffic, whose
 captured wire bytes are decoded per key epoch with the RFC values by an independent decoder (AES-GCM / CTR /
-CBC + HMAC straight from `cryptography` / `hmac`), i.e. what the Packetizer actually has in effect.
+CBC + HMAC straight from `cryptography` / `hmac`, algorithm and lengths from hand-written RFC tables keyed by the
+algorithm NAME, never from paramiko's tables), i.e. what the Packetizer actually has in effect; what the real
+Packetizer is handed (mac key, hash, tag length, block size, AEAD IV) is compared with the same tables.  Quick tier:
+every MAC, every cipher and every kex method in at least one handshake (pairing rotates with the seed); thorough:
+every cipher x MAC pair.
 """
 import hashlib
 import struct
@@ -28,7 +32,9 @@ LEVEL_TEXT = ("Machine-checked proof (Coq, closed under the global context, the 
               "key-size / MAC digest size (1..512 over the generated tables), and that for every kex of the generated "
               "_kex_info table the selected hash (the class's hash_algo, else the sha1 fallback extracted from "
               "_compute_key) has digest length 1..64 so the RFC theorem applies, and that length is the one the kex METHOD "
-              "specifies (hand-written RFC table by method name, C04_kex_hash_spec).  The model is tied to transport.py by the "
+              "specifies (hand-written RFC table by method name, C04_kex_hash_spec), and that every generated cipher / MAC "
+              "row agrees by NAME with hand-written RFC tables of key / IV / block / integrity-key / tag lengths "
+              "(C04_tables_spec).  The model is tied to transport.py by the "
               "translator (letters, sizes, tables) and by a vm_compute differential run against the real code.")
 LEVEL_NOTE = ("Trusted: Coq kernel + vm_compute; hand-written loop model of _compute_key validated by the "
               "correspondence run (toy hash); gen/c04.py; the hash is abstract (fixed output length; collision "
@@ -308,13 +314,38 @@ def canon_req(res):
     return out
 
 
+# What the algorithm NAMES are specified to mean -- hand-written from the RFCs, never read from paramiko's tables.
+# MAC: name -> (hashlib name, integrity key length = digest length, tag length on the wire)
+#   RFC 4253 6.4 (hmac-sha1 20/20, hmac-sha1-96 20/12, hmac-md5 16/16, hmac-md5-96 16/12), RFC 6668 (hmac-sha2-*),
+#   OpenSSH PROTOCOL (-etm@openssh.com: same MAC, encrypt-then-mac)
+SPEC_MACS = {
+    "hmac-sha1": ("sha1", 20, 20), "hmac-sha1-96": ("sha1", 20, 12),
+    "hmac-md5": ("md5", 16, 16), "hmac-md5-96": ("md5", 16, 12),
+    "hmac-sha2-256": ("sha256", 32, 32), "hmac-sha2-512": ("sha512", 64, 64),
+    "hmac-sha2-256-etm@openssh.com": ("sha256", 32, 32), "hmac-sha2-512-etm@openssh.com": ("sha512", 64, 64),
+    "hmac-sha1-etm@openssh.com": ("sha1", 20, 20), "hmac-md5-etm@openssh.com": ("md5", 16, 16),
+}
+# cipher: name -> (key length, IV length, block size, kind)   RFC 4253 6.3, RFC 4344 4, RFC 5647 / OpenSSH PROTOCOL 1.6
+SPEC_CIPHERS = {
+    "aes128-ctr": (16, 16, 16, "ctr"), "aes192-ctr": (24, 16, 16, "ctr"), "aes256-ctr": (32, 16, 16, "ctr"),
+    "aes128-cbc": (16, 16, 16, "cbc"), "aes192-cbc": (24, 16, 16, "cbc"), "aes256-cbc": (32, 16, 16, "cbc"),
+    "3des-cbc": (24, 8, 8, "cbc"),
+    "aes128-gcm@openssh.com": (16, 12, 16, "gcm"), "aes256-gcm@openssh.com": (32, 12, 16, "gcm"),
+}
+_SPEC_MISSING = set()
+
+
 def spec_sizes(cname, mname):
-    """Independent of the activation code: what RFC 4253 / the cipher definitions call for."""
-    import paramiko
-    ci = paramiko.Transport._cipher_info[cname]
-    mi = paramiko.Transport._mac_info[mname]
-    return {"iv": ci["iv-size"] if "iv-size" in ci else ci["block-size"], "key": ci["key-size"],
-            "mac": mi["class"]().digest_size}
+    """Independent of paramiko's code AND tables: the lengths RFC 4253 7.2 derives for these algorithm names."""
+    if cname not in SPEC_CIPHERS or mname not in SPEC_MACS:
+        # unknown algorithm: recorded (reported as a disagreement by run) and the live table used as a stand-in
+        _SPEC_MISSING.add(cname if cname not in SPEC_CIPHERS else mname)
+        import paramiko
+        ci = paramiko.Transport._cipher_info[cname]
+        mi = paramiko.Transport._mac_info[mname]
+        return {"iv": ci["iv-size"] if "iv-size" in ci else ci["block-size"], "key": ci["key-size"],
+                "mac": mi["class"]().digest_size}
+    return {"iv": SPEC_CIPHERS[cname][1], "key": SPEC_CIPHERS[cname][0], "mac": SPEC_MACS[mname][1]}
 
 
 def check_activation(ctx, server, outbound, cname, mname, hname, K, H, sid, res):
@@ -402,6 +433,25 @@ def tap_socket_class():
     return TapSocket
 
 
+def rec_real_packetizer_class():
+    """The real Packetizer, additionally remembering what set_*_cipher was handed (calls the real methods)."""
+    if "pk" in _REC:
+        return _REC["pk"]
+    from paramiko.packet import Packetizer
+
+    class RecRealPacketizer(Packetizer):
+        def set_outbound_cipher(self, *a, **kw):
+            self.__dict__.setdefault("_c04_sets", []).append(("out", dict(kw), len(a)))
+            return Packetizer.set_outbound_cipher(self, *a, **kw)
+
+        def set_inbound_cipher(self, *a, **kw):
+            self.__dict__.setdefault("_c04_sets", []).append(("in", dict(kw), len(a)))
+            return Packetizer.set_inbound_cipher(self, *a, **kw)
+
+    _REC["pk"] = RecRealPacketizer
+    return RecRealPacketizer
+
+
 def handshake(kex, cipher, mac, rekey=True):
     """Loopback handshake (+ traffic, re-key, traffic) between two recording transports over tapped sockets;
     returns per-side observations including the raw bytes each side put on the wire."""
@@ -418,7 +468,8 @@ def handshake(kex, cipher, mac, rekey=True):
     Tap = tap_socket_class()
     a, b = Tap(), Tap()
     a.link(b)
-    tc, ts = HsTransport(a), HsTransport(b)
+    pk = rec_real_packetizer_class()
+    tc, ts = HsTransport(a, packetizer_class=pk), HsTransport(b, packetizer_class=pk)
     try:
         for t in (tc, ts):
             so = t.get_security_options()
@@ -455,7 +506,11 @@ def handshake(kex, cipher, mac, rekey=True):
         for nm, t, sock in (("client", tc, a), ("server", ts, b)):
             out[nm] = {"trace": list(t.__dict__.get("_c04_trace", [])),
                        "engines": list(t.__dict__.get("_c04_engines", [])),
-                       "strict": bool(t.agreed_on_strict_kex), "wire": bytes(sock.wire)}
+                       "strict": bool(t.agreed_on_strict_kex), "wire": bytes(sock.wire),
+                       "sets": [(d, {k: (v().name if k == "mac_engine" and v is not None else v)
+                                     for k, v in kw.items() if k in ("mac_engine", "mac_size", "mac_key", "aead",
+                                                                     "iv_in", "iv_out", "block_size", "etm")}, na)
+                                for d, kw, na in t.packetizer.__dict__.get("_c04_sets", [])]}
         return out
     finally:
         tc.close()
@@ -478,11 +533,16 @@ def decode_wire(wire, cipher, mac, epochs, strict):
     import paramiko
     from cryptography.hazmat.primitives.ciphers import Cipher, algorithms, modes
     from cryptography.hazmat.primitives.ciphers.aead import AESGCM
-    ci = paramiko.Transport._cipher_info[cipher]
-    mi = paramiko.Transport._mac_info[mac]
-    aead = bool(ci.get("is_aead"))
+    if cipher in SPEC_CIPHERS and mac in SPEC_MACS:
+        aead = SPEC_CIPHERS[cipher][3] == "gcm"
+        bs = SPEC_CIPHERS[cipher][2]
+        mac_hash, _, mac_tag = SPEC_MACS[mac]
+    else:
+        ci = paramiko.Transport._cipher_info[cipher]
+        mi = paramiko.Transport._mac_info[mac]
+        aead, bs = bool(ci.get("is_aead")), ci["block-size"]
+        mac_hash, mac_tag = mi["class"]().name, mi["size"]
     etm = (not aead) and mac.endswith("-etm@openssh.com")
-    bs = ci["block-size"]
     nl = wire.find(b"\n")
     if nl < 0:
         return [], "no banner"
@@ -534,8 +594,8 @@ def decode_wire(wire, cipher, mac, epochs, strict):
             pos += 4 + ln + 16
         else:
             mkey = epochs[epoch][2]
-            msz = mi["size"]
-            hname = mi["class"]().name
+            msz = mac_tag
+            hname = mac_hash
             if etm:
                 ln = int.from_bytes(wire[pos:pos + 4], "big")
                 if ln > 40000 or pos + 4 + ln + msz > len(wire):
@@ -544,7 +604,7 @@ def decode_wire(wire, cipher, mac, epochs, strict):
                 tag = wire[pos + 4 + ln:pos + 4 + ln + msz]
                 want = hmaclib.new(mkey, seq.to_bytes(4, "big") + bytes(wire[pos:pos + 4]) + ct, hname).digest()[:msz]
                 if bytes(tag) != want:
-                    return counts, where + ": MAC does not verify under the RFC 4253 integrity key"
+                    return counts, where + ": MAC does not verify with the algorithm the MAC name specifies under the RFC 4253 integrity key"
                 plain = dec.update(ct)
                 pos += 4 + ln + msz
             else:
@@ -559,7 +619,7 @@ def decode_wire(wire, cipher, mac, epochs, strict):
                 tag = wire[pos + 4 + ln:pos + 4 + ln + msz]
                 want = hmaclib.new(mkey, seq.to_bytes(4, "big") + pkt, hname).digest()[:msz]
                 if bytes(tag) != want:
-                    return counts, where + ": MAC does not verify under the RFC 4253 integrity key"
+                    return counts, where + ": MAC does not verify with the algorithm the MAC name specifies under the RFC 4253 integrity key"
                 plain = pkt[4:]
                 pos += 4 + ln + msz
         counts[epoch + 1] += 1
@@ -632,6 +692,46 @@ def check_handshake(ctx, kex, cipher, mac, rekey=True):
             if e["key"] != tr[rfc_letter(server, outb, "key")][2] or e["iv"] != tr[rfc_letter(server, outb, "iv")][2]:
                 ctx.fail("handshake-installed", "cipher engine keyed with a key other than the RFC one for its "
                          "direction / round", case=dict(case, side=nm, op=e["op"], round=r))
+    # what the real Packetizer was handed, per round and direction, against the RFC tables by algorithm NAME
+    if cipher in SPEC_CIPHERS and mac in SPEC_MACS:
+        aead = SPEC_CIPHERS[cipher][3] == "gcm"
+        for nm, o, server in (("client", c, False), ("server", s, True)):
+            seen = {"in": 0, "out": 0}
+            for d, kw, nargs in o["sets"]:
+                r = min(seen[d], rounds - 1)
+                seen[d] += 1
+                outb = d == "out"
+                tr = per_round[nm][r]
+                K, H, sid = tr["A"][3], tr["A"][4], tr["A"][5]
+                pc = dict(case, side=nm, direction=d, round=r, K=K, H=H, sid=sid)
+                if nargs:
+                    ctx.notes.append("set_%sbound_cipher called positionally; packetizer hand-over not checked" % d)
+                    continue
+                if aead:
+                    want_iv = rfc_kdf(hashf, K, H, rfc_letter(server, outb, "iv").encode(), sid, SPEC_CIPHERS[cipher][1])
+                    got_iv = kw.get("iv_out" if outb else "iv_in")
+                    if got_iv != want_iv or kw.get("mac_key") is not None:
+                        ctx.fail("packetizer-aead-iv", "AEAD IV handed to the Packetizer is not the RFC 4253 7.2 IV",
+                                 case=pc, expected=want_iv, observed=got_iv)
+                    continue
+                mh, mk, mt = SPEC_MACS[mac]
+                want_key = rfc_kdf(hashf, K, H, rfc_letter(server, outb, "mac").encode(), sid, mk)
+                if kw.get("mac_key") != want_key:
+                    ctx.fail("packetizer-mac-key-%s" % mac,
+                             "integrity key handed to the Packetizer is not the RFC 4253 7.2 key of the length the MAC "
+                             "name specifies (%s: %d bytes)" % (mac, mk), case=pc, expected=want_key,
+                             observed=kw.get("mac_key"))
+                if kw.get("mac_engine") != mh or kw.get("mac_size") != mt:
+                    ctx.fail("packetizer-mac-alg-%s" % mac,
+                             "Packetizer is handed a hash / tag length other than the MAC name specifies (%s: %s, %d)"
+                             % (mac, mh, mt), case=pc, expected=[mh, mt],
+                             observed=[kw.get("mac_engine"), kw.get("mac_size")])
+                if kw.get("block_size") != SPEC_CIPHERS[cipher][2]:
+                    ctx.fail("packetizer-block-size", "Packetizer is handed a block size other than the cipher's",
+                             case=pc, expected=SPEC_CIPHERS[cipher][2], observed=kw.get("block_size"))
+            if seen["in"] != rounds or seen["out"] != rounds:
+                ctx.fail("handshake-engines", "a side did not install both directions in every round", case=case,
+                         observed=seen)
     # client-out == server-in and vice versa per round (the values both sides derived), directions distinct
     for r in range(rounds):
         ct, stt = per_round["client"][r], per_round["server"][r]
@@ -883,23 +983,31 @@ def run(ctx):
     kexes = [k for k in kexes if k in paramiko.Transport._kex_info]
     gexes = [k for k in ("diffie-hellman-group-exchange-sha256", "diffie-hellman-group-exchange-sha1")
              if k in paramiko.Transport._kex_info]
+    allkex = kexes + gexes
+    nonaead = [c for c in names_c if not paramiko.Transport._cipher_info[c].get("is_aead")]
+    aeads = [c for c in names_c if paramiko.Transport._cipher_info[c].get("is_aead")]
+    rot = ctx.seed
     plan = []
-    for i, k in enumerate(kexes):
-        plan.append((k, names_c[i % len(names_c)], names_m[i % len(names_m)]))
-    # group exchange (stub modulus pack) and every AEAD cipher are always in the plan (re-key included)
-    for i, k in enumerate(gexes):
-        plan.append((k, names_c[(3 + 4 * i) % len(names_c)], names_m[(3 + 2 * i) % len(names_m)]))
-    for cname in names_c:
-        if paramiko.Transport._cipher_info[cname].get("is_aead") and not any(p[1] == cname for p in plan):
-            plan.append((rng.choice(kexes[:4]), cname, rng.choice(names_m)))
     if ctx.thorough:
-        for ci, cname in enumerate(names_c):
-            for mi, mname in enumerate(names_m):
-                if (ci + mi) % 2 == 0:
-                    plan.append((rng.choice(kexes[:6]), cname, mname))
+        # every cipher x MAC pair, kex rotating through every method
+        j = 0
+        for cname in names_c:
+            for mname in names_m:
+                plan.append((allkex[(j + rot) % len(allkex)], cname, mname))
+                j += 1
     else:
-        for _ in range(3):
-            plan.append((rng.choice(kexes[:4]), rng.choice(names_c), rng.choice(names_m)))
+        # every MAC table entry (on a non-AEAD cipher, where the MAC is really used), every cipher table entry and
+        # every kex method once; which is paired with which rotates with the seed
+        for j, mname in enumerate(names_m):
+            plan.append((allkex[(j + rot) % len(allkex)], nonaead[(j + rot) % len(nonaead)], mname))
+        for j, cname in enumerate(aeads):
+            plan.append((allkex[(len(names_m) + j + rot) % len(allkex)], cname, names_m[(j + rot) % len(names_m)]))
+        for cname in nonaead:
+            if not any(p[1] == cname for p in plan):
+                plan.append((allkex[rot % len(allkex)], cname, names_m[rot % len(names_m)]))
+        for k in allkex:
+            if not any(p[0] == k for p in plan):
+                plan.append((k, names_c[rot % len(names_c)], names_m[(rot + 1) % len(names_m)]))
     done = 0
     for kex, cname, mname in plan:
         if check_handshake(ctx, kex, cname, mname):
@@ -907,6 +1015,9 @@ def run(ctx):
             ctx.count(("hs", kex, cname, mname), kind="handshake-" + kex)
     lap("handshakes")
     ctx.notes.append("real handshakes completed: %d of %d" % (done, len(plan)))
+    for nm in sorted(_SPEC_MISSING):
+        ctx.disagree("algorithm %s is in Transport's tables but has no entry in the hand-written RFC tables "
+                     "SPEC_MACS / SPEC_CIPHERS (harness) and spec_macs / spec_ciphers (coq/Model/C04.v)" % nm)
     if done < len(plan) // 2:
         ctx.disagree("fewer than half of the loopback handshakes completed", case={"done": done, "planned": len(plan)})
 
